@@ -269,6 +269,70 @@ class EcDsa(Base):
                 finally:
                     ctx.end()
 
+        # ---------------- valid triples whose recomputed point has an x-coordinate in [n, p): constructed by
+        # public-key recovery (R = (n + j, y), r = j, any s; Q = r^-1 (s R - e G)), never met at random
+        if p > n + 1:
+            from ..model.curves import sqrt_mod
+            a_, b_ = R.curve["a"], R.curve["b"]
+            cand = []
+            j = 0
+            while len(cand) < (3 if q else 12) and j < min(p - n, 4000):
+                j += 1
+                x = n + j
+                y = sqrt_mod((x * x * x + a_ * x + b_) % p, p)
+                if y is not None and (y * y - (x * x * x + a_ * x + b_)) % p == 0:
+                    cand.append((j, (x, y if rng.random() < 0.5 else (p - y) % p)))
+            for j, Rp in cand:
+                for pre in (0, 1):
+                    if not self.mine():
+                        continue
+                    mode = "prehashed" if pre else "hashed"
+                    msg = self.rbytes(rng.choice([20, 32, 48]) if pre else rng.randrange(0, 80))
+                    sv = rng.randrange(1, n)
+                    ev = cprt.bits2int(self.digest(msg, pre), n)
+                    ri = pow(j, -1, n)
+                    Qc = E.add(E.mul(sv * ri % n, Rp), E.mul((-ev * ri) % n, G))
+                    if Qc is None or not ctx.begin("cp_ecdsa_ver|constructed-x>=n,%s" % mode, [cname, j]):
+                        continue
+                    try:
+                        if self.model_ecdsa(j, sv, msg, pre, Qc):      # sanity of the construction
+                            lv = self.lib_ecdsa(j, sv, msg, pre, Qc)
+                            ctx.check(lv == "acc", ctx.cur_key + "|rejected",
+                                      {"lib": lv, "r": hx(j), "s": hx(sv), "msg": msg.hex(), "Q": [hx(Qc[0]), hx(Qc[1])],
+                                       "x_R": hx(Rp[0])})
+                            lv = self.lib_ecdsa(j + 1, sv, msg, pre, Qc)
+                            ctx.check(lv != "acc", ctx.cur_key + "|r+1-accepted", {"lib": lv})
+                        else:
+                            ctx.fail(ctx.cur_key + "|construction", {"j": j})
+                    except MonitorViolation as e:
+                        ctx.fail(ctx.cur_key + "|" + e.kind, e.detail)
+                    finally:
+                        ctx.end()
+
+            # the same construction for EC-Schnorr: P = (n + j, y), e = H(m || x_P mod n), any s, Q = e^-1 (P - s G)
+            for j, Pp in cand:
+                if not self.mine():
+                    continue
+                msg = self.rbytes(rng.randrange(0, 80))
+                ev = self.ecss_e(msg, Pp[0])
+                sv = rng.randrange(1, n)
+                if ev == 0:
+                    continue
+                Qc = E.mul(pow(ev, -1, n), E.add(Pp, E.mul((-sv) % n, G)))
+                if Qc is None or not ctx.begin("cp_ecss_ver|constructed-x>=n,hashed", [cname, j]):
+                    continue
+                try:
+                    if self.model_ecss(ev, sv, msg, Qc):
+                        lv = self.lib_ecss(ev, sv, msg, Qc)
+                        ctx.check(lv == "acc", ctx.cur_key + "|rejected",
+                                  {"lib": lv, "e": hx(ev), "s": hx(sv), "msg": msg.hex(), "Q": [hx(Qc[0]), hx(Qc[1])], "x_P": hx(Pp[0])})
+                    else:
+                        ctx.fail(ctx.cur_key + "|construction", {"j": j})
+                except MonitorViolation as e:
+                    ctx.fail(ctx.cur_key + "|" + e.kind, e.detail)
+                finally:
+                    ctx.end()
+
         # ---------------- hostile triples with independent verdicts
         def hostile(scheme, it):
             dv, Q = keys[rng.randrange(len(keys))]
